@@ -6,10 +6,13 @@ use super::process::calling_process;
 
 // Infer absolute path to `relative_path`.
 pub fn absolute_path(relative_path: &str, config: &Config) -> Option<PathBuf> {
-    // `delta /abs/a /abs/b`: git diff --no-index names the two files without their leading slash.
+    // `delta /abs/a /abs/b`: git diff --no-index names the two files (or, for two directories,
+    // the files below them) without their leading slash.
     for file in [config.minus_file.as_ref(), config.plus_file.as_ref()].into_iter().flatten() {
-        if file.is_absolute() && file.strip_prefix("/").ok() == Some(Path::new(relative_path)) {
-            return Some(normalize_path(file.clone()));
+        if let Ok(without_root) = file.strip_prefix("/") {
+            if Path::new(relative_path).starts_with(without_root) {
+                return Some(normalize_path(Path::new("/").join(relative_path)));
+            }
         }
     }
     match (
